@@ -19,13 +19,13 @@ PayloadBytes(pkg, dir, cid) ==
     CASE pkg = "multicastsetup" /\ cid = 1 -> {<<s>> \o Pat(5 * PopCount([i \in 1..4 |-> (s \div Pow2(i - 1)) % 2]), k) : s \in 0..127, k \in {2}}
       [] pkg = "multicastsetup" -> {<<s>> \o (IF (s \div 4) % 8 # 0 THEN <<>> ELSE Pat(3, k)) : s \in 0..31, k \in {1, 2}}
       [] pkg = "fragmentation" -> {Pat(2, k) \o Pat(n, 2) : k \in 0..3, n \in {0, 1, 5}}
-      [] pkg = "firmwaremanagement" -> {<<s>> : s \in 0..2}
+      [] pkg = "firmwaremanagement" -> {<<s>> : s \in 0..2} \cup {<<3>> \o Pat(4, k) : k \in 0..3}
   ELSE LET n == LayoutSize(ALayout(pkg, dir, cid)) IN
        IF n = 0 THEN {<<>>} ELSE IF n = 1 THEN {<<b>> : b \in 0..255} ELSE {Pat(n, k) : k \in 0..3}
 ValueOf(pkg, dir, cid, b) == [cid |-> cid, haspl |-> TRUE, val |-> DecodePayload(pkg, dir, cid, b)]
 
 \* a clean (RFU-free) value per command for the sequences
-Rep(pkg, dir, cid) == ValueOf(pkg, dir, cid, CHOOSE b \in PayloadBytes(pkg, dir, cid) : TRUE)
+Rep(pkg, dir, cid) == ValueOf(pkg, dir, cid, IF pkg = "firmwaremanagement" /\ dir = "up" /\ cid = 4 THEN <<3, 1, 2, 3, 4>> ELSE CHOOSE b \in PayloadBytes(pkg, dir, cid) : TRUE)
 NoPl(cid) == [cid |-> cid, haspl |-> FALSE, val |-> <<>>]
 Palette(pkg, dir) == {Rep(pkg, dir, c) : c \in CIDsOf(pkg, dir) \ (IF pkg = "fragmentation" THEN {8} ELSE {})} \cup {NoPl(CHOOSE c \in 0..9 : c \notin CIDsOf(pkg, dir))}
 MaxSeq == IF Thorough THEN 3 ELSE 2
@@ -41,5 +41,5 @@ WF == \A i \in 1..Len(st.cmds) : WellFormed(st.pkg, st.dir, st.cmds[i])
 RoundTrip == LET b == AStreamBytes(st.pkg, st.dir, st.cmds)  d == ADecodeStream(st.pkg, st.dir, b) IN d.ok /\ d.cmds = st.cmds
 SizeOK == \A i \in 1..Len(st.cmds) : LET c == st.cmds[i] IN
              (c.haspl /\ ~IsSpecial(st.pkg, st.dir, c.cid)) => Len(APayloadBytes(st.pkg, st.dir, c)) = LayoutSize(ALayout(st.pkg, st.dir, c.cid))
-Emit == CSVWrite("%1$s", <<ToJson(st)>>, OutFile)
+Emit == CSVWrite("%1$s", <<ToJson(st @@ [bytes |-> AStreamBytes(st.pkg, st.dir, st.cmds)])>>, OutFile)
 ====
